@@ -16,7 +16,8 @@ from .filt_util import tok, bits, ChoiceRecorder
 
 ID = "C03"
 LEAN_MODULES = ["DclabModel.Properties.C03"]
-RULE = ("seeded histories of 5..60 operations on a dict-backed dataset with 1..25 events and 2..7 "
+RULE = ("seeded histories of 5..60 operations on a dataset (70% dict-backed, 20% an .rtdc/HDF5 file "
+        "written into memory, 10% a hierarchy child of an unfiltered dict dataset) with 1..25 events and 2..7 "
         "innate scalar features plus the computed ones they make available and that have NOT been "
         "accessed when the filter is applied (index, area_ratio, the plugin feature verif_anc, in "
         "a few histories emodulus); the harness never reads the dataset under test, all reference "
@@ -36,7 +37,12 @@ RULE = ("seeded histories of 5..60 operations on a dict-backed dataset with 1..2
         "with an axis that is not in the dataset (KeyError), forced names that are no scalar "
         "features (ValueError), assignments to invalid keys (dropped by the configuration); any "
         "history may assign `hierarchy parent` and stir NumPy's global generator between "
-        "operations. The outcome of every apply (ok / raises) is judged against a stateless "
+        "operations. 12% of the ranges span everything there is (finite extent of the data, one "
+        "side infinite, [-inf, inf]; sometimes reversed). 30% of the datasets carry a temporary "
+        "feature; in half of those it is set AGAIN with other data in the middle of the history, "
+        "in 70% of the emodulus histories the setup/calculation metadata change (emodulus is "
+        "computed anew): the changed feature is named in `force` of the following applies until "
+        "one went through, and is never a polygon axis. The outcome of every apply (ok / raises) is judged against a stateless "
         "criterion of the current settings. After every apply the four arrays are compared "
         "with the Lean model and ds.filter.all with (a) a stateless Python evaluation of "
         "ds.config['filtering'] and (b) a fresh dataset given the same settings. distinct = "
@@ -67,7 +73,11 @@ TRUSTED_BASE = [
 ASSUMPTIONS = ["range bounds are not NaN", "polygon filter ids in the settings are registered "
                "instances (PolygonFilter.get_instance_from_id does not raise)",
                "the set of features and the number of events of the "
-               "dataset do not change during a history"]
+               "dataset do not change during a history",
+               "when the DATA of a feature change during a history (temporary feature set again, "
+               "ancillary feature recomputed after a metadata change) the feature is named in "
+               "`force` of the next apply (documented purpose of `force`) and is not the axis of a "
+               "polygon filter (polygon masks are cached by the polygon's content only)"]
 NOT_PROVED = ["pip is a parameter (C15 covers containment); md5 injectivity",
               "hierarchy children: how a child's filter is derived from its parent is property "
               "C04; here only that the key 'hierarchy parent' never influences the filter "
@@ -75,11 +85,15 @@ NOT_PROVED = ["pip is a parameter (C15 covers containment); md5 injectivity",
               "polygon filter ids whose instance was removed from the registry "
               "(get_instance_from_id raises KeyError in _init_rtdc_ds): outside the model",
               "code as found (without fix-F73): the refinement theorem needs the guard ValidHistX "
-              "(today_refines_spec_partial)"]
+              "(today_refines_spec_partial)",
+              "the theorems fix the data `d` of a history; data that change in the middle of a "
+              "history (driver: `col` sent again) and the feature containers (HDF5 file, hierarchy "
+              "child: nan-aware min/max, lazy loading) are correspondence-only: mirror `stepX` on "
+              "the new data plus the two stateless oracles"]
 
 #: alphabetical, so that np.unique's order of feature names is the order of the ids
 FEATS = ["area_cvx", "area_msd", "area_ratio", "area_um", "aspect", "bright_avg", "deform",
-         "emodulus", "fl1_max", "index", "pos_x", "tilt", "verif_anc"]
+         "emodulus", "fl1_max", "index", "pos_x", "tilt", "verif_anc", "verif_tmp"]
 assert FEATS == sorted(FEATS)
 PRESENT_POOL = ["area_cvx", "area_msd", "area_um", "aspect", "bright_avg", "deform", "pos_x"]
 ABSENT = ["fl1_max", "tilt"]
@@ -89,6 +103,23 @@ FID = {f: i for i, f in enumerate(FEATS)}
 UNKNOWN = {100: "peter", 101: "image", 102: "area_um min", 103: ""}
 #: values of the one [filtering] key Filter.update ignores
 PARENTS = ["none", "abc", "xyz-123", "0"]
+#: temporary feature (registered once per process, data set per dataset; may be set AGAIN with
+#: other data in the middle of a history)
+TEMP = "verif_tmp"
+#: what a dataset is made of: the same events behind different feature containers
+#:   dict   in-memory dictionary (plain numpy arrays)
+#:   hdf5   an .rtdc (HDF5) file written with RTDCWriter into memory (H5ScalarEvent: lazily
+#:          loaded, min/max/mean answered nan-aware from stored attributes)
+#:   child  hierarchy child (ChildScalar) of an unfiltered dict dataset
+BACKENDS = ["dict", "hdf5", "child"]
+#: metadata changes after which the ancillary feature emodulus is computed anew (other events
+#: fall outside the look-up table): (section, key, value)
+RECALC = [("setup", "channel width", 30.0), ("setup", "channel width", 20.0),
+          ("setup", "flow rate", 0.16), ("setup", "flow rate", 0.04),
+          ("calculation", "emodulus lut", "HE-2D-FEM-22"),
+          ("calculation", "emodulus lut", "LE-2D-FEM-19"),
+          ("calculation", "emodulus temperature", 30.0),
+          ("imaging", "pixel size", 0.27), ("imaging", "pixel size", 0.34)]
 #: keys that are no valid [filtering] keys: the configuration drops the assignment
 BADKEYS = ["peter min", "image max", "foo", "area_um mid"]
 #: candidate finding F73 (number chosen by the C03 unit): a KeyError out of the polygon loop
@@ -113,8 +144,10 @@ EMOD_CFG = {"setup": {"channel width": 20, "flow rate": 0.04},
 
 def ensure_plugin():
     """register the plugin feature `verif_anc` once per process"""
-    common.import_dclab()
+    dclab = common.import_dclab()
     from dclab import definitions as dfn
+    if not dfn.scalar_feature_exists(TEMP):
+        dclab.register_temporary_feature(TEMP)
     if dfn.scalar_feature_exists("verif_anc"):
         return
     from dclab.rtdc_dataset.feat_anc_plugin import PlugInFeature
@@ -222,8 +255,23 @@ def gen_history(rng, thorough, emod=False):
                            for _ in range(n)]
         data["deform"] = [tok(rng.choice([0.005, 0.02, 0.08, 0.3])) for _ in range(n)]
     anc = ancillaries(present, emod)
-    axes_pool = present + ["index"] + anc
-    filterable = present + ["index"] + anc + ABSENT
+    # the feature container behind the events; a temporary feature; `mut`: the data of one
+    # existing feature (the temporary one / emodulus) change in the middle of the history
+    backend = "dict" if emod else rng.choice(["dict"] * 7 + ["hdf5"] * 2 + ["child"])
+    temp = (not emod) and rng.random() < 0.3
+    mut = rng.random() < (0.7 if emod else 0.5)
+    mutable = ("emodulus" if "emodulus" in anc else None) if emod else (TEMP if temp else None)
+    if not mut:
+        mutable = None
+    if temp:
+        data[TEMP] = [tok(gen_value(rng, thorough)) for _ in range(n)]
+    extra = [TEMP] if temp else []
+    # (a feature whose data change is no polygon axis: polygon masks are cached by the
+    # polygon's content and `force` only names features for min/max refiltering)
+    axes_pool = [f for f in present + ["index"] + anc + extra if f != mutable]
+    filterable = present + ["index"] + anc + extra + ABSENT
+    current = {}       # feature -> its tokens after the last change of its data
+    dirty = set()      # features whose data changed since the last apply that went through
     nops = rng.randint(5, 14) if emod else rng.randint(5, 60)
     # a fifth of the histories visit the other exits of update: polygon filters whose axes are
     # not in the dataset (KeyError), forced names that are no scalar features (ValueError),
@@ -269,6 +317,34 @@ def gen_history(rng, thorough, emod=False):
     def half_set():
         return [f for f in filterable if ((f, 0) in keys) != ((f, 1) in keys)]
 
+    def extent(f):
+        """a range over everything there is: the finite extent of the data (what GUIs set by
+        default), everything but the infinities' side, or the whole line"""
+        fin = [untok(t) for t in current.get(f, data.get(f, []))
+               if t not in ("nan", "+inf", "-inf")]
+        if f == "index":
+            fin = [1.0, float(n)]
+        r2 = rng.random()
+        if fin and r2 < 0.6:
+            lo, hi = min(fin), max(fin)
+        elif fin and r2 < 0.8:
+            lo, hi = rng.choice([(-math.inf, max(fin)), (min(fin), math.inf)])
+        else:
+            lo, hi = -math.inf, math.inf
+        return (hi, lo) if rng.random() < 0.2 else (lo, hi)
+
+    def emit_apply(force):
+        """apply; a feature whose data changed is named in `force` (the documented way to have
+        its range evaluated again) until an apply went through"""
+        nonlocal applied
+        force = sorted(set(force) | {FID[f] for f in dirty})
+        ops.append(("apply", force))
+        raised = bool(half_set()) or bool(bad_active()) or any(f >= 100 for f in force)
+        if not raised:
+            applied = dict(keys)
+            dirty.clear()
+        return raised
+
     def bad_active():
         return sorted({pid for pid in active if pid in polys
                        and (polys[pid][0] in ABSENT or polys[pid][1] in ABSENT)})
@@ -291,13 +367,23 @@ def gen_history(rng, thorough, emod=False):
         if limit > 0 and rng.random() < 0.3:
             ops += eqcard()
             if not half_set():
-                ops.append(("apply", []))
-                if not bad_active():
-                    applied = dict(keys)
+                emit_apply([])
             continue
         r3 = rng.random()
         if r3 < 0.03:
-            ops.append(("parent", rng.randrange(len(PARENTS))))
+            if backend != "child":      # (a child's key names its parent: C04)
+                ops.append(("parent", rng.randrange(len(PARENTS))))
+            continue
+        if mutable == TEMP and r3 > 0.94:
+            # set_temporary_feature again: other values for an existing feature
+            current[TEMP] = [tok(gen_value(rng, thorough)) for _ in range(n)]
+            ops.append(("redata", FID[TEMP]) + tuple(current[TEMP]))
+            dirty.add(TEMP)
+            continue
+        if mutable == "emodulus" and r3 > 0.85:
+            # metadata change: the ancillary feature is computed anew
+            ops.append(("recalc", rng.randrange(len(RECALC))))
+            dirty.add("emodulus")
             continue
         if r3 < 0.06:       # other code uses NumPy's global generator
             ops.append(("stir", rng.randrange(10 ** 6)))
@@ -308,7 +394,12 @@ def gen_history(rng, thorough, emod=False):
         if r < 0.30:
             f = rng.choice(filterable if rng.random() < 0.85 else present)
             v = gen_bound(rng, thorough, data.get(f), prof.get(f))
-            if rng.random() < 0.8:      # both keys
+            if rng.random() < 0.12:
+                v, w = extent(f)
+                ops.append(("set", FID[f], 0, tok(v)))
+                ops.append(("set", FID[f], 1, tok(w)))
+                keys[(f, 0)], keys[(f, 1)] = tok(v), tok(w)
+            elif rng.random() < 0.8:      # both keys
                 w = v if rng.random() < 0.12 else gen_bound(rng, thorough, data.get(f),
                                                             prof.get(f))
                 ops.append(("set", FID[f], 0, tok(v)))
@@ -389,6 +480,7 @@ def gen_history(rng, thorough, emod=False):
             active = []
             manual = [True] * n
             limit = 0
+            dirty.clear()      # reset() drops every cached box filter
         else:
             hs = half_set()
             if hs and rng.random() < 0.7:
@@ -406,13 +498,12 @@ def gen_history(rng, thorough, emod=False):
             force = []
             if rng.random() < 0.15:
                 force = sorted({FID[rng.choice(filterable)] for _ in range(rng.randint(1, 2))})
-            if errp and rng.random() < 0.15:
+            if errp and backend != "child" and rng.random() < 0.15:
+                # (a child hands `force` to its parent first, which raises before the child's
+                # own update starts: C04)
                 force = sorted(set(force) | {rng.choice(sorted(UNKNOWN))})
-            ops.append(("apply", force))
-            raised = bool(hs) or bool(bad_active()) or any(f >= 100 for f in force)
-            if not raised:
-                applied = dict(keys)
-            elif rng.random() < 0.6:
+            raised = emit_apply(force)
+            if raised and rng.random() < 0.6:
                 # the apply raised: go back to the settings applied last (F25 / F73 pattern) ...
                 for key in sorted(set(keys) | set(applied)):
                     if key in applied and keys.get(key) != applied[key]:
@@ -422,14 +513,18 @@ def gen_history(rng, thorough, emod=False):
                 keys = dict(applied)
                 repair_polys()
                 if rng.random() < 0.7:      # ... and apply again
-                    ops.append(("apply", []))
+                    emit_apply([])
     if not ops or ops[-1][0] != "apply":
         if not half_set():
             repair_polys()
-            ops.append(("apply", []))
+            emit_apply([])
     case = {"n": n, "data": data, "ops": [list(o) for o in ops]}
     if emod:
         case["emod"] = True
+    if backend != "dict":
+        case["backend"] = backend
+    if temp:
+        case["temp"] = [TEMP]
     if prof:
         case["profile"] = {f: list(v) for f, v in sorted(prof.items())}
     return case
@@ -446,28 +541,83 @@ class Impl:
         PolygonFilter.clear_all_filters()
         self.case = case
         ensure_plugin()
+        self.temp = list(case.get("temp", []))
+        self.backend = case.get("backend", "dict")
         self.arrays = {f: np.array([untok(t) for t in v], dtype=np.float64)
-                       for f, v in case["data"].items()}
+                       for f, v in case["data"].items() if f not in self.temp}
+        #: current data of the temporary features / metadata changed during the history
+        self.temp_data = {f: np.array([untok(t) for t in case["data"][f]], dtype=np.float64)
+                          for f in self.temp}
+        self.meta = []
+        self.changed = []
+        self.keep = []      # parents of hierarchy children, file objects
         #: the dataset under test: the harness never reads a feature from it
         self.ds = self.make_ds()
-        #: its twin with every scalar feature accessed: source of all reference data
-        self.ref = self.make_ds(access=True)
+        #: its twin (plain dict dataset) with every scalar feature accessed: source of all
+        #: reference data
+        self.ref = self.make_ds(access=True, backend="dict")
         self.n = len(self.ds)
         self.pf = {}          # pid -> PolygonFilter
         self.shape_of = {}    # pid -> shape token
 
-    def make_ds(self, access=False):
+    def make_ds(self, access=False, backend=None):
         dclab = common.import_dclab()
-        ds = dclab.new_dataset({f: v.copy() for f, v in self.arrays.items()})
+        backend = backend or self.backend
+        if backend == "hdf5":
+            import io
+            import h5py
+            from dclab.rtdc_dataset.writer import RTDCWriter
+            bio = io.BytesIO()
+            with h5py.File(bio, "w") as h5:
+                with RTDCWriter(h5, mode="append") as hw:
+                    for f, v in self.arrays.items():
+                        hw.store_feature(f, v.copy())
+                    hw.store_metadata({"experiment": {"event count": int(self.case["n"])}})
+            bio.seek(0)
+            self.keep.append(bio)
+            ds = dclab.new_dataset(bio)
+        else:
+            ds = dclab.new_dataset({f: v.copy() for f, v in self.arrays.items()})
         if self.case.get("emod"):
             for sec, kv in EMOD_CFG.items():
                 for k, v in kv.items():
                     ds.config[sec][k] = v
+        for sec, k, v in self.meta:
+            ds.config[sec][k] = v
+        for f, v in self.temp_data.items():
+            dclab.set_temporary_feature(ds, f, v.copy())
+        if backend == "child":
+            self.keep.append(ds)
+            ds = dclab.new_dataset(ds)      # the parent is unfiltered: same events
         if access:
             with np.errstate(all="ignore"):
                 for feat in ds.features_scalar:
                     ds[feat][:]
         return ds
+
+    def change(self, op):
+        """the data of an existing scalar feature change (dataset under test and twin)"""
+        dclab = common.import_dclab()
+        self.changed = []
+        if op[0] == "redata":
+            arr = np.array([untok(t) for t in op[2:]], dtype=np.float64)
+            self.temp_data[FEATS[op[1]]] = arr
+            # (hierarchy child: the data are set in its parent; set_temporary_feature on the
+            # child itself would additionally apply the child's filter - an apply the history
+            # does not contain, C04)
+            for ds in (self.ref, getattr(self.ds, "hparent", None) or self.ds):
+                dclab.set_temporary_feature(ds, FEATS[op[1]], arr.copy())
+            changed = [FEATS[op[1]]]
+        else:
+            sec, k, v = RECALC[op[1]]
+            self.meta.append((sec, k, v))
+            for ds in (self.ref, self.ds):
+                ds.config[sec][k] = v
+            changed = ["emodulus"]
+        with np.errstate(all="ignore"):
+            for feat in self.ref.features_scalar:
+                self.ref[feat][:]
+        return changed
 
     def features(self):
         return list(self.ds.features_scalar)
@@ -515,6 +665,8 @@ class Impl:
                 self.pf[op[1]].inverted = bool(op[2])
             elif kind == "access":
                 ds[FEATS[op[1]]][:]
+            elif kind in ("redata", "recalc"):
+                self.changed = self.change(op)
             elif kind == "parent":
                 cfg["hierarchy parent"] = PARENTS[op[1]]
             elif kind == "stir":
@@ -593,6 +745,8 @@ class Impl:
         src = self.ds.config["filtering"]
         for k in src.keys():
             v = src[k]
+            if k == "hierarchy parent" and self.backend == "child":
+                continue        # names the (other) parent
             if k == "polygon filters":
                 # not through __setitem__: its converter `fintlist` drops the id 0
                 for pid in v:
@@ -683,6 +837,16 @@ def run_impl(case, want_lines=True):
             lines += rec.lines(sent)
             if op[0] in ("access", "badkey"):
                 slots.append(None)
+                continue
+            if op[0] in ("redata", "recalc"):
+                # the model is told the new values of the changed column(s)
+                for feat in getattr(im, "changed", []):
+                    if feat in present_feats:
+                        lines.append(f"col {FID[feat]} " + " ".join(tok(x) for x in im.column(feat)))
+                        slots.append(len(lines) - 1)
+                        break
+                else:
+                    slots.append(None)
                 continue
             if op[0] == "set":
                 lines.append(f"set {op[1]} {op[2]} {op[3]}")
@@ -778,7 +942,8 @@ def nontrivial(case, answers):
     if len(applies) < 2:
         return False
     a, b = applies[0], applies[-1]
-    return any(o[0] in ("set", "pop", "polyset", "polyaxes", "polypoints", "polyinv", "manual")
+    return any(o[0] in ("set", "pop", "polyset", "polyaxes", "polypoints", "polyinv", "manual",
+                        "redata", "recalc")
                for o in case["ops"][a + 1:b])
 
 
@@ -814,7 +979,8 @@ def shrink(case):
     n = case["n"]
     for keep in range(1, n):
         cand = dict(small, n=keep, data={f: v[:keep] for f, v in case["data"].items()},
-                    ops=[o for o in ops if not (o[0] == "manual" and o[1] >= keep)])
+                    ops=[(o[:2 + keep] if o[0] == "redata" else o) for o in ops
+                         if not (o[0] == "manual" and o[1] >= keep)])
         if spec_fails(cand):
             small = cand
             break
@@ -947,6 +1113,9 @@ def run(ctx):
         ctx.stat("ops", len(c["ops"]))
         if c.get("profile"):
             ctx.stat("scaled_history")
+        ctx.stat("backend=" + c.get("backend", "dict"))
+        if c.get("temp"):
+            ctx.stat("history_with_temporary_feature")
         for o, a in zip(c["ops"], answers):
             ctx.stat("op=" + o[0])
             if not a.startswith("ok"):
